@@ -617,3 +617,35 @@ pub fn check_matrix_undirected<Null: Nullable<Wrapped = u32>, Ix: IndexType>(g: 
     let _t = visit_battery_basic!(g, seed, nk, ek, [ecount, adj], unique_edge_ids = true)?;
     Ok(())
 }
+
+use petgraph::csr::Csr;
+
+pub trait CsrVisit<Ix: IndexType>: EdgeType + Sized {
+    fn visit(g: &Csr<u32, u32, Self, Ix>, seed: u64) -> Result<(), VErr>;
+}
+impl<Ix: IndexType> CsrVisit<Ix> for Directed {
+    fn visit(g: &Csr<u32, u32, Self, Ix>, seed: u64) -> Result<(), VErr> {
+        let nk = |n: Ix| n.index();
+        let ek = |e: usize| e as u64;
+        let _t = visit_battery_basic!(g, seed, nk, ek, [ecount, compact, adj], unique_edge_ids = true)?;
+        Ok(())
+    }
+}
+impl<Ix: IndexType> CsrVisit<Ix> for Undirected {
+    fn visit(g: &Csr<u32, u32, Self, Ix>, seed: u64) -> Result<(), VErr> {
+        let nk = |n: Ix| n.index();
+        // Csr's EdgeId is the position in the column array, and an undirected edge sits in
+        // two rows: the id is row-relative by design, so edges are matched by endpoints only
+        // (Csr is a simple graph, so endpoints identify an edge).
+        let ek = |_e: usize| 0u64;
+        let _t = visit_battery_basic!(g, seed, nk, ek, [ecount, compact, adj], unique_edge_ids = false)?;
+        Ok(())
+    }
+}
+
+pub fn check_list<Ix: IndexType>(g: &petgraph::adj::List<u32, Ix>, seed: u64) -> Result<(), VErr> {
+    let nk = |n: Ix| n.index();
+    let ek = |e: petgraph::adj::EdgeIndex<Ix>| crate::core::fnv(format!("{:?}", e).as_bytes());
+    let _t = visit_battery_basic!(g, seed, nk, ek, [ecount, compact, adj], unique_edge_ids = true)?;
+    Ok(())
+}
